@@ -170,7 +170,8 @@ pub fn binary_case<T: Fl>(yt: &[u8], yp: &[u8], origin: &dyn Fn() -> String) -> 
 /// accuracy on arbitrary (here: small integer, possibly negative / non-contiguous) labels
 pub fn accuracy_case<T: Fl>(yt: &[f64], yp: &[f64]) -> f64 {
     let (a, b): (Vec<T>, Vec<T>) = (tv(yt), tv(yp));
-    let eq = yt.iter().zip(yp).filter(|(x, y)| x == y).count();
+    // equality as the library sees it (after rounding the label values to T)
+    let eq = a.iter().zip(&b).filter(|(x, y)| f(**x) == f(**y)).count();
     match mc::guard(|| metrics::accuracy(&a, &b)) {
         Ok(v) => {
             agree("accuracy.value:multiclass-labels", "accuracy", T::TAG, f(v), eq as f64 / yt.len() as f64, 2.0 * T::EPS, &|| format!("y_true={} y_pred={}", show(yt), show(yp)));
@@ -431,19 +432,24 @@ pub fn hcv_case(ci: &[usize], ki: &[usize], map_t: &[i64; 8], map_p: &[i64; 8], 
         "general"
     };
     for (name, lib, want, class) in [("homogeneity", h, r.h, class_h), ("completeness", c, r.c, class_c), ("v_measure", v, r.v, class_v)] {
+        // (values are printed with 10 digits: the last ulps of the library's entropy sums depend on
+        // hash-map iteration order, and a replayed violation must print identically)
         if !lib.is_finite() {
-            mc::violation(format!("hcv.{}.not-finite:{}", name, class), format!("{} = {} but the definition gives {}; {}", name, lib, want, input()));
+            mc::violation(format!("hcv.{}.not-finite:{}", name, class), format!("{} = {} but the definition gives {:.10e}; {}", name, lib, want, input()));
             continue;
         }
-        if agree(&format!("hcv.{}.value:{}", name, class), name, "f64", lib, want, HCV_TOL, &input) {
-            headroom!("hcv", (lib - want).abs(), HCV_TOL);
+        let err = (lib - want).abs();
+        if err <= HCV_TOL {
+            headroom!("hcv", err, HCV_TOL);
+        } else {
+            mc::violation(format!("hcv.{}.value:{}", name, class), format!("{} = {:.10e} but the definition gives {:.10e} (|diff| = {:.1e}, tolerance {:e}); {}", name, lib, want, err, HCV_TOL, input()));
         }
         // range [0,1]: the lower bound is exact (the library clamps the mutual information at 0),
         // the upper bound is checked with the rounding tolerance
         if lib < 0.0 {
-            mc::violation(format!("hcv.{}.range:negative", name), format!("{} = {:e} < 0; {}", name, lib, input()));
+            mc::violation(format!("hcv.{}.range:negative", name), format!("{} = {:.3e} < 0; {}", name, lib, input()));
         } else if lib > 1.0 + HCV_TOL {
-            mc::violation(format!("hcv.{}.range:above-one", name), format!("{} = {:e} > 1; {}", name, lib, input()));
+            mc::violation(format!("hcv.{}.range:above-one", name), format!("{} = {:.10e} > 1; {}", name, lib, input()));
         } else if lib > 1.0 {
             mc::count("hcv_above_one_within_rounding");
         }
@@ -455,7 +461,7 @@ pub fn hcv_case(ci: &[usize], ki: &[usize], map_t: &[i64; 8], map_p: &[i64; 8], 
                 if same_or_both_nan(x, y) == Some(false) {
                     mc::violation(
                         format!("hcv.swap:{}", if what.starts_with('v') { "v_measure-not-symmetric" } else { "homogeneity-completeness-not-exchanged" }),
-                        format!("{}: {:e} vs {:e}; {}", what, x, y, input()),
+                        format!("{}: {:.10e} vs {:.10e}; {}", what, x, y, input()),
                     );
                 }
             }
@@ -474,7 +480,7 @@ pub fn hcv_case(ci: &[usize], ki: &[usize], map_t: &[i64; 8], map_p: &[i64; 8], 
                     if same_or_both_nan(x, y) == Some(false) {
                         mc::violation(
                             format!("hcv.rename:{}-{}", nt.0, np.0),
-                            format!("{} changes from {:e} to {:e} when labels_true is renamed to {} and labels_pred to {}; {}", what, x, y, show(&zt), show(&zp), input()),
+                            format!("{} changes from {:.10e} to {:.10e} when labels_true is renamed to {} and labels_pred to {}; {}", what, x, y, show(&zt), show(&zp), input()),
                         );
                     }
                 }
@@ -489,7 +495,7 @@ pub fn hcv_case(ci: &[usize], ki: &[usize], map_t: &[i64; 8], map_p: &[i64; 8], 
             Ok((h4, c4, v4)) => {
                 for (what, x, y) in [("homogeneity_score", h, h4), ("completeness_score", c, c4), ("v_measure_score", v, v4)] {
                     if same_or_both_nan(x, y) == Some(false) {
-                        mc::violation(format!("hcv.functions:{}-differs-from-get_score", what), format!("{} = {:e} but get_score gives {:e}; {}", what, y, x, input()));
+                        mc::violation(format!("hcv.functions:{}-differs-from-get_score", what), format!("{} = {:.10e} but get_score gives {:.10e}; {}", what, y, x, input()));
                     }
                 }
             }
